@@ -534,23 +534,42 @@ package engine
 //@   requires d != nil
 //@   assigns group(ast)
 
+// The replacers mirror the '+' pattern node by node (C03): an absent part is the zero value of its type, a
+// verbatim part is the pattern's own value, a pointer / interface holds what its target replacer built,
+// element k of a list (field k of a struct) is what replacer k built, from the same bindings and position.
 //@ func (r ZeroReplacer) Replace(d, cl, pos) (v, err)
-//@   ensures err == nil
+//@   ensures [C03] absent-parts-are-the-zero-value-of-their-type: err == nil && rtype(v) == r.Type && v == rzero(r.Type)
 
 //@ func (r ValueReplacer) Replace(d, cl, pos) (v, err)
 //@   ensures [C03] verbatim: err == nil && v == r.Value
 
 //@ func (r PtrReplacer) Replace(d, cl, pos) (v, err)
 //@   requires r.Replacer != nil
+//@   at call engine.Replacer.Replace assert [C03] target-built-from-the-same-bindings: arg0 == r.Replacer && arg1 == d && arg3 == pos
+//@   at call reflect.New assert [C03] of-the-pattern-type: arg0 == r.Type
+//@   at call engine.setValue assert [C03] pointer-to-what-the-target-replacer-built: arg0 == relem(ret("reflect.New", 0)) && arg1 == raddr(x)
+//@   ensures [C03] the-built-pointer-is-returned: err == nil ==> v == relem(ret("reflect.New", 0))
 
 //@ func (r InterfaceReplacer) Replace(d, cl, pos) (v, err)
 //@   requires r.Replacer != nil
+//@   at call engine.Replacer.Replace assert [C03] value-built-from-the-same-bindings: arg0 == r.Replacer && arg1 == d && arg3 == pos
+//@   at call reflect.New assert [C03] of-the-pattern-type: arg0 == r.Type
+//@   at call engine.setValue assert [C03] interface-holding-what-the-value-replacer-built: arg0 == relem(ret("reflect.New", 0)) && arg1 == x
+//@   ensures [C03] the-built-interface-is-returned: err == nil ==> v == relem(ret("reflect.New", 0))
 
 //@ func (r StructReplacer) Replace(d, cl, pos) (v, err)
 //@   requires forall i int {r.Fields[i]} :: 0 <= i && i < len(r.Fields) ==> r.Fields[i] != nil
+//@   at call reflect.New assert [C03] of-the-pattern-type: arg0 == r.Type
+//@   at call engine.Replacer.Replace assert [C03] field-k-built-by-replacer-k-from-the-same-bindings: arg0 == r.Fields[i] && arg1 == d && arg3 == pos
+//@   at call engine.setValue assert [C03] field-k-holds-what-replacer-k-built: arg0 == fld(relem(ret("reflect.New", 0)), i) && arg1 == fv
+//@   ensures [C03] the-built-struct-is-returned: err == nil ==> v == relem(ret("reflect.New", 0))
 
 //@ func (r SliceReplacer) Replace(d, cl, pos) (v, err)
 //@   requires forall i int {r.Items[i]} :: 0 <= i && i < len(r.Items) ==> r.Items[i] != nil
+//@   at call reflect.MakeSlice assert [C03] one-slot-per-pattern-element: arg0 == r.Type && arg1 == len(r.Items)
+//@   at call engine.Replacer.Replace assert [C03] element-k-built-by-replacer-k-from-the-same-bindings: arg0 == r.Items[i] && arg1 == d && arg3 == pos
+//@   at call engine.setValue assert [C03] element-k-holds-what-replacer-k-built: arg0 == idx(ret("reflect.MakeSlice", 0), i) && arg1 == item
+//@   ensures [C03] the-built-list-is-returned: err == nil ==> v == ret("reflect.MakeSlice", 0)
 
 // setValue is the only place a replacer writes a generated value; it refuses ill-typed values.
 //@ func setValue(dst, src) (err)
